@@ -740,8 +740,12 @@ class PureSpec(SeqSpec):
     batch_quick = 12
     batch_thorough = 60
 
+    def always(self):
+        """calls that are part of every run (regression inputs for recorded defects), one case each"""
+        return []
+
     def gen(self, rng, tier, scale):
-        cases = []
+        cases = [{"component": "pure", "fn": op[0], "ops": [op]} for op in self.always()]
         for fn, (small, big) in self.universes(rng, tier).items():
             small = list(small)
             if tier == "quick":
@@ -761,6 +765,8 @@ class PureSpec(SeqSpec):
             if op[0] in ORACLE_ONLY or ob["r"][0] == "skip":
                 continue
             items.append("(%s, %s)" % (call_term(op), res_term(ob["r"])))
+        if not items:
+            return "(@nil (pcall * pres))"
         return "[" + ";\n  ".join(items) + "]"
 
     def oracle(self, case, obs):
@@ -809,6 +815,11 @@ class PureSpec(SeqSpec):
 
 class XSlicesSpec(PureSpec):
     package = "xslices"
+
+    def always(self):
+        return [["xslices.Runs", [1, 2, 2], ["keyeq", 1]], ["xslices.Runs", [1], ["keyeq", 1]], ["xslices.Runs", [1, 1, 2], ["keyeq", 1]],
+                ["xslices.Chunk", [1, 2], -2], ["xslices.Chunk", [1, 2, 3], -5], ["xslices.Chunk", [], -1], ["xslices.Chunk", [1, 2], 0],
+                ["xslices.Chunk", [1, 2], MAXINT], ["xslices.Chunk", [1, 2, 3], MAXINT - 1], ["xslices.Chunk", [1], MAXINT], ["xslices.Chunk", [1, 2, 3], 2]]
 
     def universes(self, rng, tier):
         L = 5
@@ -996,6 +1007,10 @@ def all_chains(maxdepth):
 class XErrorsSpec(PureSpec):
     package = "xerrors"
     quick_per_fn = 90
+
+    def always(self):
+        return [["xerrors.WithStackTwice", [["b", 1]]], ["xerrors.WithStack", [["w", 31], ["s"], ["b", 1]]], ["xerrors.WithStack", None],
+                ["xerrors.WithStackIs", [["w", 31], ["b", 1]], [["b", 1]]]]
 
     def universes(self, rng, tier):
         chains = all_chains(4)
